@@ -286,6 +286,32 @@ def run():
                           {"src": sreqs[i * 7 + j]["src"], "observed": got, "expected": want, "unsigned": u})
     total += len(sreqs)
     total += len(lits)
+    # ---- (E) names told apart: a name works as a variable / property / keyword only if it is not silently ANOTHER name.  Every two-character
+    # name (letter + letter, digit or `_`; any keying of names that merges two of them - a polynomial or additive hash, a case fold, a cut -
+    # merges two of these or two of the listed longer ones) defined together in one scope, one object literal and one keyword list.
+    first = "ABCDEFGHIJKLMNOPQRSTUVWXYZabcdefghijklmnopqrstuvwxyz"
+    names = [a + b for a in first for b in first + "0123456789_" if a + b != "if"]
+    long_ = "x" * 70
+    names += ["isOk", "isPL", "abc", "acb", "bac", "bca", "cab", "cba", "abcd", "dcba", "a_b", "ab_", "a__b", "A_b",
+              "Aa?", "BB?", "Aa!", "BB!", "ab?", "ab!", "ba?", "if_", "ifa", "iff", "elsee", "else_"] + [long_[:k] + c for k in (7, 8, 15, 16, 31, 32, 63, 64) for c in "ab"]
+    n = len(names)
+    want = "val:[" + ", ".join(str(i + 1) for i in range(n)) + "]"
+    apart = [("variables of one scope", "\n".join(f"{w} := {i + 1}" for i, w in enumerate(names)) + "\n[" + ", ".join(names) + "]", want),
+             ("properties of one object literal", "o := {" + ", ".join(f"{w}: {i + 1}" for i, w in enumerate(names)) + "}\n[" + ", ".join("o." + w for w in names) + "]", want),
+             ("names listed by one object", "{" + ", ".join(f"{w}: {i + 1}" for i, w in enumerate(names)) + "}.keys.len", f"val:{n}"),
+             ("keywords of one call", "{|| k := \\_; [" + ", ".join("k." + w for w in names) + "]}(" + ", ".join(f"{w}: {i + 1}" for i, w in enumerate(names)) + ")", want),
+             ("keyword parameters of one function", "{|" + ", ".join(f"{w}: 0" for w in names[::7]) + "| [" + ", ".join(names[::7]) + "]}(" + ", ".join(f"{w}: {i + 1}" for i, w in enumerate(names[::7])) + ")",
+              "val:[" + ", ".join(str(i + 1) for i in range(len(names[::7]))) + "]")]
+    aout = run_cases([{"id": f"a{i}", "src": src, "deadline_ms": 60000} for i, (_, src, _) in enumerate(apart)], label="C17 names apart")
+    for i, (what, src, exp) in enumerate(apart):
+        got = aout[f"a{i}"]["end"]
+        if got.startswith(("discarded:", "fuel:")):
+            raise pvlib.Broken(f"the names-apart program ({what}) was not evaluated: {got}")
+        total += 1
+        if got != exp:
+            gl, el = got[5:-1].split(", "), exp[5:-1].split(", ")
+            bad = [f"{names[j]} reads {gl[j]} (given {el[j]})" for j in range(min(len(gl), len(el), n)) if gl[j] != el[j]][:4] if len(gl) == len(el) and got.startswith("val:[") else [got[:120]]
+            ck.reject(f"C17:name:apart:{what.split()[0]}", f"{n} distinct names as {what}: {'; '.join(bad)}", {"what": what, "observed_differences": bad, "src": src, "expected": exp})
     ck.sample({"float": lits[5], "observed": out["5"]["end"], "spec_accepts": verdicts["5"]})
     ck.cov["evaluations"] = total
     ck.cov["distinct_nontrivial"] = len(nontrivial)
@@ -293,7 +319,7 @@ def run():
     ck.cov["rule"] = (f"TLC enumerates spellings: digits over small alphabets with `_` up to {consts['MaxDigits']} characters in 4 bases, exponent forms "
                       "e-4..e20, boundary and seeded random spellings around 2^53/2^63/2^64, strings and raw strings of up to "
                       f"{consts['MaxPieces']} pieces from 19 piece kinds (incl. braces and an interpolation, which makes the literal an embedded string), identifiers up to {consts['MaxName']} characters over {{a,Z,_,1,?,!}} plus 60 "
-                      "reserved-word derivatives; floats: boundary list + seeded random decimals with exponents -25..25. non-trivial = distinct "
+                      "reserved-word derivatives; every two-character name and listed look-alikes defined together in one scope / object / keyword list and read back; floats: boundary list + seeded random decimals with exponents -25..25. non-trivial = distinct "
                       "spellings for which the specification prescribes a value, a rejection or a working name")
     ck.assumptions = ["results are read through the worker's canonical rendering (Go strconv.Quote / shortest float text)",
                       "subnormal float literals are not generated"]
